@@ -24,7 +24,7 @@ ASSUMPTIONS = [
     "physical 'waiting' vs 'delayed' is only distinguished for due times more than 10 ms ahead (early delivery is C05's)",
     "no time-to-live on messages here (expiry is C12's)",
 ]
-REQUIRED = ["ops", "snapshots_compared", "consume_returns", "cancel_points", "drain_audits", "jumps_to_exact_due_time", "concurrent_pairs"]
+REQUIRED = ["ops", "snapshots_compared", "consume_returns", "cancel_points", "drain_audits", "jumps_to_exact_due_time", "concurrent_pairs", "empty_payload_messages"]
 SHARD_TIMEOUT = {"quick": 900, "thorough": 3600}
 CASE_TIMEOUT = 120
 
@@ -260,7 +260,10 @@ async def run_history(loop, case, out, stats, trace):
                 conn = rnd.choice(conns)
                 p = mk_params(conn, rnd, now())
                 q, t, pr = rnd.choice(queues), rnd.choice(topics), rnd.choice([0, 5, 9])
-                payload = f"payload-{id_}"
+                # (the empty string is the payload of every job enqueued without arguments, and enqueue()'s own default)
+                payload = f"payload-{id_}" if rnd.random() < 0.75 else ""
+                if payload == "":
+                    stats["empty_payload_messages"] += 1
                 await conn.message_broker.enqueue(key_of(conn, id_, t, q, pr), payload, p)
                 model[id_] = M(id_, q, t, pr, payload, psum(p), p.delay.next_execution_time)
                 trace.append(("enqueue", id_, q, t, pr, str(p.delay.next_execution_time)))
@@ -397,7 +400,7 @@ async def run_history(loop, case, out, stats, trace):
                         stats["handover_patterns"] += 1
                 else:
                     p = mk_params(conn, rnd, now(), tried=m.params["tried"] + 1)
-                    m.payload = m.payload + "+"
+                    m.payload = (m.payload + "+") if rnd.random() < 0.8 else ""
                     await mb.requeue(m.key, m.payload, p)
                     m.params, m.due, m.place = psum(p), p.delay.next_execution_time, "queued"
                 m.holder = None
